@@ -1,7 +1,8 @@
 (* C09 — pag_to_mag returns a member of the class the PAG represents.  Statements: C09/Spec.v; model: C09/Model.v;
    spec oracles (valid MAG, Markov equivalence by msep_dec, PAG of a MAG from the definition): C09/Oracle.v. *)
 From Coq Require Import List Arith Bool.
-From PG Require Import Base.ListSet Graph.MGraph C08.Model C09.Model C09.Oracle C09.Spec C09.Proofs C09.Bounded_n3 C09.Bounded_n4 C09.Bounded C09.Refuted C09.Cover C09.Ext.
+From PG Require Import Base.ListSet Graph.MGraph C08.Model C09.Model C09.Oracle C09.Spec C09.Proofs C09.Bounded_n3 C09.Bounded_n4 C09.Bounded C09.Refuted C09.Cover C09.Ext
+                       C08.Spec C09.Component C09.Whole C09.WholeExample C09.ChordalDefs C09.Chordal_b5 C09.HypsB.
 Import ListNotations.
 
 (* unbounded, every mark graph: nodes, adjacencies, arrowheads and tails kept, circles resolved, no circle left *)
@@ -55,3 +56,46 @@ Print Assumptions all_mags_covers_every_mag.
 Theorem p2m_member_bounded_4_all : forall n m, n <= 4 -> V m = nodes n -> valid_mag_spec m = true -> member_check m = true.
 Proof. exact p2m_member_all_mags_4. Qed.
 Print Assumptions p2m_member_bounded_4_all.
+
+(* ---- ALL SIZES, conditional (C09/Component.v, C09/Whole.v) ----
+   [rounds_extendable]: at every round of the model's run the PDAG "current graph + the edge oriented by hand" has a
+   v-structure-free consistent DAG extension.  On a chordal circle component this is the content of Meek 1995 Thm 4; it is
+   NOT proved for all sizes here (bounded discharge below), it is the explicit hypothesis. *)
+Theorem p2m_component_all_sizes : forall g,
+  rounds_extendable (length (U (temp_cpdag g))) (temp_cpdag g) ->
+  let oc := oriented_component g in U oc = [] /\ acyclic oc /\ vfree oc.
+Proof. exact (fun g Hr => p2m_component_ok g (vext_temp g Hr) Hr). Qed.
+Print Assumptions p2m_component_all_sizes.
+
+(* with the standard PAG invariants [pag_hyps] (no self loops, an o-o pair carries no other edge, no -o edge, Zhang 2008
+   Lemma 3.3.1 for o-o edges, directed layer acyclic, no almost directed cycle): the result has no directed cycle, no
+   bidirected edge between a node and its ancestor, and every unshielded collider of the result is a collider of the PAG *)
+Theorem p2m_shape_all_sizes_conditional : forall g,
+  pag_hyps g -> rounds_extendable (length (U (temp_cpdag g))) (temp_cpdag g) ->
+  let m := pag_to_mag_model g in
+  acyclic m /\
+  (forall a b, has_b m a b = true -> dpath m a b -> False) /\
+  (forall a c b, arrow_at m a c = true -> arrow_at m b c = true -> a <> b -> adjacent m a b = false ->
+                 arrow_at g a c = true /\ arrow_at g b c = true).
+Proof. exact p2m_shape_all_sizes. Qed.
+Print Assumptions p2m_shape_all_sizes_conditional.
+
+(* bounded discharge of the hypothesis (Meek's lemma on chordal graphs, all 1+1+2+8+64+1024 undirected graphs on <= 5 nodes):
+   chordal (perfect elimination ordering) <-> a v-structure-free consistent extension exists, and then "orient one edge,
+   close under R1-R4, repeat" ends with no undirected edge, acyclic, without unshielded collider *)
+Theorem chordal_iff_vfree_extension_bounded_5 : forall n t, n <= 5 -> In t (und_graphs n) -> chordalb t = vextb t.
+Proof. exact chordal_iff_vext_bounded_5. Qed.
+Print Assumptions chordal_iff_vfree_extension_bounded_5.
+
+Theorem meek_chordal_orientation_bounded_5 : forall n t, n <= 5 -> In t (und_graphs n) -> chordalb t = true ->
+  let q := orient_all (length (U t)) t in
+  U q = [] /\ acyclic q /\ vfree q /\ only_orients t q.
+Proof. exact meek_chordal_lemma_bounded_5. Qed.
+Print Assumptions meek_chordal_orientation_bounded_5.
+
+(* the hypotheses of p2m_shape_all_sizes_conditional, in boolean form, hold for the PAG of every valid MAG on <= 3 nodes
+   (kernel); the harness evaluates the same booleans on every PAG of a MAG it generates (n <= 4, chordal 5-6 nodes) *)
+Theorem pag_hyps_hold_on_pags_of_mags_bounded_3 : forall n m0, n <= 3 -> In m0 (all_mags n) ->
+  pag_hypsb (pag_of_mag m0) = true /\ rounds_ok_b (pag_of_mag m0) = true.
+Proof. exact pag_hyps_hold_bounded_3. Qed.
+Print Assumptions pag_hyps_hold_on_pags_of_mags_bounded_3.
